@@ -138,4 +138,104 @@ Proof.
   wrun_ro H ltac:(exact D). eapply copied_inner_df; eauto.
 Qed.
 
+(* ---------- file sets are only assigned to elements that hang below a model root ---------- *)
+Lemma top_same_tree w w' : same_tree w w' -> forall x t, Top w x t -> Top w' x t.
+Proof.
+  intros (_ & _ & Hs) x t Ht. induction Ht as [x n Hn Hnp | x n p t Hn Hp Ht IH].
+  - pose proof (skel_some _ _ _ Hn) as E. rewrite <- Hs in E. apply skel_inv in E as (n' & Hn' & Hp' & _).
+    rewrite <- Hp'. eapply T_here; eauto. rewrite Hp'. auto.
+  - pose proof (skel_some _ _ _ Hn) as E. rewrite <- Hs in E. apply skel_inv in E as (n' & Hn' & Hp' & _).
+    eapply T_up; eauto. congruence.
+Qed.
+
+Lemma DF_set_files w x n n' m0 :
+  w_nodes w x = Some n -> n_parent n' = n_parent n -> kids n' = kids n -> Top w x (PModel m0) -> DF w ->
+  DF (wset w x n').
+Proof.
+  intros Hn Hp Hk Ht D y ny Hd Hny.
+  pose proof (st_wset w x n n' Hn Hp Hk) as ST.
+  pose proof (top_same_tree _ _ (same_tree_sym _ _ ST) _ _ Hd) as Hd0.
+  destruct (N.eq_dec y x) as [->|Hyx].
+  - pose proof (top_fun _ _ _ Hd0 _ Ht). discriminate.
+  - rewrite nodes_wset_neq in Hny by auto. eapply D; eauto.
+Qed.
+
+(* same tree as the start world, and DF *)
+Definition SD (w0 wk : world) : Prop := same_tree w0 wk /\ DF wk.
+
+Lemma SD_modify w0 wk x f r wk' m0 :
+  SD w0 wk -> Top w0 x (PModel m0) -> (forall n, n_parent (f n) = n_parent n /\ kids (f n) = kids n) ->
+  modify_node x f wk = Val (r, wk') -> SD w0 wk'.
+Proof.
+  intros (ST & D) Ht Hf H. apply modify_node_wset in H as (n & Hn & _ & ->). destruct (Hf n) as (Hp & Hk). split.
+  - eapply same_tree_trans; [exact ST|]. eapply st_wset; eauto.
+  - eapply DF_set_files; eauto. eapply top_same_tree; eauto.
+Qed.
+
+Definition files_kids_loop (cur : list N) : list citem -> W unit :=
+  fix kids (l : list citem) : W unit :=
+    match l with
+    | [] => wret tt
+    | CElem c :: rest =>
+      (modify_node c (fun x => if is_empty (n_files x) then set_files x cur else x);; kids rest)%W
+    | CData _ :: rest => kids rest
+    end.
+
+Lemma atfr_kids w0 e n0 m0 cur : Core w0 -> w_nodes w0 e = Some n0 -> Top w0 e (PModel m0) ->
+  forall l, (forall c, In c (elems l) -> In c (kids n0)) ->
+  forall wk r w', SD w0 wk -> files_kids_loop cur l wk = Val (r, w') -> SD w0 w' /\ r = OK tt.
+Proof.
+  intros C Hn0 Ht. induction l as [|[c|d] l IHl]; intros Hin wk r w' S H; cbn [files_kids_loop] in H.
+  - winv H. auto.
+  - wstepn H u1 Em.
+    assert (Htc : Top w0 c (PModel m0)).
+    { assert (Hl : lists w0 e c) by (exists n0; split; auto; apply Hin; rewrite elems_cons_elem; left; auto).
+      apply C in Hl. destruct Hl as (nc & Hnc & Hpc). eapply T_up; eauto. }
+    eapply IHl; [intros c' Hc'; apply Hin; rewrite elems_cons_elem; right; auto | | exact H].
+    eapply (SD_modify w0 wk c (fun x => if is_empty (n_files x) then set_files x cur else x)); [exact S | exact Htc | | exact Em].
+    intros nx. destruct (is_empty (n_files nx)); split; reflexivity.
+  - eapply IHl; eauto.
+Qed.
+
+Lemma atfr_df fuel : forall e f w0 wk r w' m0,
+  Core w0 -> SD w0 wk -> Top w0 e (PModel m0) ->
+  add_to_file_restricted T fuel e f wk = Val (r, w') -> SD w0 w'.
+Proof.
+  induction fuel as [|fl IH]; intros e f w0 wk r w' m0 C S Ht H; cbn [add_to_file_restricted] in H; [discriminate|].
+  wstepn H fm Ef. destruct (match fm with Some x => x | None => (true, []) end) as [local cur].
+  destruct (set_mem f cur); [winv H; auto|].
+  wstepn H nq En; winv En. wstepn H sq Es; winv Es.
+  match goal with Hq : w_nodes wk e = Some ?nx |- _ => rename nx into n; rename Hq into Hn end.
+  match goal with Hq : splittable T (n_type n) = Val ?vx |- _ => rename vx into v end.
+  assert (Hn0 : exists n0, w_nodes w0 e = Some n0 /\ n_parent n0 = n_parent n /\ kids n0 = kids n).
+  { destruct S as ((_ & _ & Hs) & _). pose proof (skel_some _ _ _ Hn) as E. rewrite Hs in E.
+    apply skel_inv in E as (n0 & ? & ? & ?). eauto. }
+  destruct Hn0 as (n0 & Hn0 & Hp0 & Hk0).
+  assert (KL : forall wa ra wb,
+             (if negb (v =? 0) then files_kids_loop cur (n_content n) else wret tt) wa = Val (ra, wb) ->
+             SD w0 wa -> SD w0 wb /\ ra = OK tt).
+  { intros wa ra wb Ek Sa. destruct (negb (v =? 0)); [|winv Ek; auto].
+    eapply (atfr_kids w0 e n0 m0 cur C Hn0 Ht (n_content n)); eauto. intros c Hc. rewrite Hk0. exact Hc. }
+  wstepn H u Ek.
+  2:{ destruct (KL _ _ _ Ek S) as (_ & [=]). }
+  destruct (KL _ _ _ Ek S) as (S1 & _).
+  wstepn H ps Ep.
+  wstepn H u2 Em.
+  2:{ exfalso. destruct (ps || local); [prim_noerr Em | winv Em]. }
+  match type of Em with _ = Val (_, ?wx) => rename wx into wm end.
+  assert (S2 : SD w0 wm).
+  { destruct (ps || local); [|winv Em; auto].
+    eapply (SD_modify w0 _ e (fun x => set_files x (set_add f cur))); [exact S1 | exact Ht | | exact Em].
+    intros nx. split; reflexivity. }
+  wstepn H p Epp. unfold parent_of in Epp. destruct (n_parent n) as [|mm|pi] eqn:Hpn; winv Epp.
+  - winv H. auto.
+  - assert (Htpi : Top w0 pi (PModel m0)).
+    { remember (PModel m0) as t eqn:Et. destruct Ht as [x nx Hnx Hnp | x nx p t Hnx Hpx Ht].
+      - assert (nx = n0) as -> by congruence. exfalso. eapply Hnp. rewrite Hp0. eauto.
+      - assert (nx = n0) as -> by congruence. subst t. assert (p = pi) as -> by congruence. auto. }
+    exact (IH pi f w0 wm r w' m0 C S2 Htpi H).
+  - exact S2.
+  - exact S1.
+Qed.
+
 End DF5.
